@@ -13,7 +13,7 @@ func init() {
 			{Name: "H_C20_kmeans", Tier: "quick", What: "KMeans: n<=2 vectors, d=1, 3 metrics, k any int, maxIter any int (effective iterations <=2): min(k,n) centroids, nil for k<=0 / n=0, assignments in range, nearest when converged, input untouched, second call bit-identical", Covers: []string{"ran", "nil", "converged"}},
 			{Name: "H_C20_kmeans_finite", Tier: "quick", What: "KMeans, k=2, 2 iterations, 2 points or 3 with a duplicate (an empty cluster arises), symbolic coordinates in [-1e6,1e6]: every centroid coordinate is finite (T2)", Covers: []string{"ran"}},
 			{Name: "H_C20_kmeans_box", Tier: "quick", What: "KMeans, k in {2,3}, 2 iterations, 2..4 points in d=1 built from two symbolic coordinates on the dyadic grid k/4, |k|<=32 (duplicates, all-equal data, k above the number of distinct points: clusters that stay empty): every centroid coordinate lies inside the bounding box of the training vectors, exactly (T2, grid domain)", Covers: []string{"ran"}},
-			{Name: "H_C20_train_twice", Tier: "quick", What: "IVF / PQ / IVFPQ (nlist 1 and 2) trained twice on the same 12 / 20 vectors, the second time under the reversed map iteration order: bit-identical centroids and codebooks, identical result lists", Covers: []string{"ran"}},
+			{Name: "H_C20_train_twice", Tier: "quick", What: "IVF / PQ / IVFPQ (nlist 1 and 2) trained twice on the same 12 / 20 vectors, the second time under the reversed map iteration order; KMeans (k 1..2) twice on 300 / 500 concrete vectors (the random source is modelled as a sequence that differs from call to call): bit-identical centroids and codebooks, identical result lists", Covers: []string{"ran"}},
 			{Name: "H_C20_kmeans3", Tier: "thorough", What: "KMeans n=3, k=2, l2sq, <=2 iterations", Covers: []string{"ran"}},
 		},
 		Bounds:      []string{"k-means: n<=2 (3 thorough) training vectors, d=1, effective iterations <=2 (DefaultMaxIter is set by the harness for maxIter<=0)", "float16: all 2^32 float32 inputs (NaN inputs only for no-panic)", "int8: 7 concrete absMax values x every float32 v in range"},
